@@ -402,6 +402,8 @@ class AdaptiveRunArm(Arm):
             T = draw(st.sampled_from([0.5, 1.0]))
             return {"spec": spec, "inputs": inputs,
                     "cfg": {"T": T, "dt": draw(st.sampled_from([0.01, 0.05])), "N": N, "vectorize": vec, "n_out": 10,
+                            # one run in three uses the torch / jax implementation of the input interpolation
+                            "backend": draw(st.sampled_from(["default", "default", "default", "default", "torch", "jax"])),
                             "method": draw(st.sampled_from(["RK45", "DOP853", "LSODA"]))}}
         from ..finding_predicates import repair_case
         return case().map(lambda c: repair_case(c, ctx))
@@ -424,6 +426,10 @@ class AdaptiveRunArm(Arm):
         res.labels = common_labels(case, rm) + ["vec" if vec else "novec", "scipy:" + cfg["method"]]
         if abs(N - T / dt) > 0.5:
             res.labels.append("N_differs_from_T/dt")
+        if cfg.get("backend", "default") != "default":
+            res.labels.append("backend:" + cfg["backend"])
+            if any(i.get("kind") != "1d" for i in case["inputs"]):
+                res.labels.append("backend:" + cfg["backend"] + ":multi_column")
         res.nontrivial = True
         y0 = np.array([rm.y0()[p] for p in sp])
         ext_arr = expand_inputs(spec, rm, case["inputs"])
@@ -464,6 +470,7 @@ class AdaptiveRunArm(Arm):
             return res
         try:
             df = run_circuit(spec, T, dt, dict(outputs), solver="scipy", vectorize=vec, dts=dts,
+                             backend=cfg.get("backend", "default"),
                              inputs=pyrates_inputs(case["inputs"]), max_step=T / (N - 1) / 2, **kw)
             a = np.column_stack([np.asarray(df[f"v{i}"], dtype=float) for i in range(len(sp))])
         except HarnessError:
